@@ -3,7 +3,8 @@
 Require Import ExtrOcamlBasic.
 Require Import ITree.Model.Common ITree.Model.RBTree ITree.Model.Pool ITree.Model.MapModel
   ITree.Model.KeyModel ITree.Model.ListModel ITree.Model.Heap ITree.Model.SegModel
-  ITree.Model.Checkers ITree.Spec.Spec.
+  ITree.Model.Checkers ITree.Spec.Spec ITree.Model.ArenaModel ITree.Model.ArenaDelete
+  ITree.Model.ArenaKey ITree.Model.ArenaQuery ITree.Model.ArenaKeyRun.
 Extraction Language OCaml.
 Extraction "model.ml"
   m_new m_step m_run cmp_to
@@ -14,4 +15,6 @@ Extraction "model.ml"
   elements slots ents keys size height level_order ent_at
   a_insert a_remove a_lookup a_update a_pred a_pred_by a_next a_prev
   alive ref_less ref_less_eq ref_less_eq_by ref_get ref_export
-  bucket_overlap ref_query.
+  bucket_overlap ref_query
+  arena_m_step empty_arena tree_pool_new
+  arena_k_step.
